@@ -354,6 +354,9 @@ def check(ctx):
         # anything can return early or unwind - else the N items already pulled are leaked on that path
         from . import c04
         c04.check_finish_window(ctx, cfg, "C07.W", only=(K_TRY, K_TRYB))
+        # C07.Q (the same clause): what the builder will drop is what was written - its position moves only inside judged element-moving steps
+        from . import c03 as _c03
+        _c03.check_position_stores(ctx, cfg, "C07.Q")
         # C07.D: builder liveness at foreign calls
         db = ctx.db(cfg)
         a = ctx.analysis(cfg, K_TRY)
